@@ -493,6 +493,10 @@ class CPreProcessor:
         while parens > 0:
             token = self.next_token(expand=False)
 
+            # Empty lines inside the argument list are whitespace:
+            if token.typ == "BOL":
+                continue
+
             # Keep track of parenthesis level:
             if token.typ == "(":
                 parens += 1
